@@ -1,5 +1,6 @@
 (* fmt_driver.ml — model and oracle side of the format cluster (C08)
    case lines:   fmt <format-hex> <op>*        op  = p:<arg>  |  a:<arg>,<arg>,...  |  a:.
+                 os <width> <fill-hex> <l|r|i> <format-hex> <op>*      operator<< into a stream holding "pre:" with that pending width/fill/adjustment, then "!"
                  seq <format-hex> <op>* / <format-hex> <op>* / ...     (several formatters, one after the other)
                  exc <arg>+
    arg = s<hex> | s- | i<dec> (long) | d<dec> (double, integer value) | b0 b1 (bool) | f<dec> (double z + 1/2)
@@ -51,10 +52,17 @@ let rec split_seq (ws : string list) : string list list =
     | x :: r -> go (x :: cur) acc r in
   go [] [] ws
 let parse_fmt = function f :: ops -> (str_of_hex f, List.map parse_op ops) | [] -> failwith "seq"
+(* os: the caller's stream holds "pre:" and has a pending width / fill / adjustment (l = left; r, i = right, internal) *)
+let pre = str_of_hex "7072653a" and sentinel = str_of_hex "21"
+let parse_adj = function "l" -> true | "r" | "i" -> false | _ -> failwith "adj"
+let parse_fill c = match str_of_hex c with [b] -> b | _ -> failwith "fill"
+let parse_stream w c adj = { content = pre; width = nat_of_int (int_of_string w); fill = parse_fill c; adjust_left = parse_adj adj }
+let obs_stream (s, returned) = "O " ^ hex_of_str s ^ (if returned then " K" else " R")
 let in_scope_exc args = List.for_all stateless args
 let model ws =
   try (match ws with
   | "fmt" :: f :: ops -> obs_res (format_chain (str_of_hex f) (List.map parse_op ops))
+  | "os" :: w :: c :: adj :: f :: ops -> obs_stream (stream_chain (parse_stream w c adj) (str_of_hex f) (List.map parse_op ops) sentinel)
   | "seq" :: rest -> "Q " ^ String.concat " " (List.map obs_short (format_seq (List.map parse_fmt (split_seq rest))))
   | "exc" :: (_ :: _ as args) ->
       let args = List.map parse_arg args in
@@ -71,6 +79,10 @@ let oracle case obs =
        | Raise _, ["RAISE"] -> true
        | Ok s, ["S"; x] -> str_of_hex x = s
        | _ -> false)
+  | "os" :: w :: c :: adj :: f :: ops, ["O"; x; k] ->
+      let rendered = List.map render (flatten_ops (List.map parse_op ops)) in
+      let (s, returned) = spec_stream pre (nat_of_int (int_of_string w)) (parse_fill c) (parse_adj adj) (str_of_hex f) rendered sentinel in
+      str_of_hex x = s && k = (if returned then "K" else "R")
   | "seq" :: rest, "Q" :: rs ->
       let l = List.map parse_fmt (split_seq rest) in
       List.length l = List.length rs &&
